@@ -44,7 +44,20 @@ DataSets06 == {<<[n |-> "t", v |-> S("T")], [n |-> "show", v |-> B(sh)], [n |-> 
                  sh \in BOOLEAN, it \in {<<>>, <<I(1), I(2)>>}}
 Tree06(lay, pagebody, useRef) == [n \in {"layouts/main", "home"} |->
                                     IF n = "home" THEN Tpl(useRef, <<H("ignored")>> \o pagebody) ELSE Tpl(NoUse, lay)]
-Good06 == {[tree |-> Tree06(<<H("<plain>"), P(Var("t"))>>, <<H("only text")>>, u), page |-> "home", d |-> d, tags |-> <<"c06", "no-reserves">>] :
+\* several pages of one layout in one load, with different inserts (or none) for reserves nested in @if / @each: every
+\* page shows its own
+Tree06n(lay, bodies) == [n \in {"layouts/main"} \cup DOMAIN bodies |-> IF n = "layouts/main" THEN Tpl(NoUse, lay) ELSE Tpl(Alias("main"), bodies[n])]
+TwoPages06 == {[tree |-> Tree06n(LayB, [n \in {"home", "other", "zlast"} |-> CASE n = "home" -> b1 [] n = "other" -> b2 [] n = "zlast" -> b3]), page |-> pg, d |-> d,
+                tags |-> <<"c06", "pages-of-one-layout">>] :
+                 b1 \in {Stmts(i1) \o Stmts(i2) : i1 \in {InsertE("a", StrL("A1"), 1)}, i2 \in {InsertB("b", <<H("B1")>>, 1)}},
+                 b2 \in {<<InsertE("a", StrL("A2"), 1)>>, <<>>, <<InsertB("b", <<H("B2")>>, 1), InsertB("a", <<H("A2"), P(Var("t"))>>, 1)>>},
+                 b3 \in {<<InsertE("a", StrL("A3"), 1), InsertE("b", StrL("B3"), 1)>>, <<>>},
+                 pg \in {"home", "other", "zlast"}, d \in DataSets06}
+              \cup {[tree |-> Tree06n(LayC, [n \in {"home", "other"} |-> IF n = "home" THEN <<InsertE("row", Var("q"), 1), InsertE("foot", StrL("F1"), 1)>>
+                                                                        ELSE <<InsertB("row", <<H("r2")>>, 1)>>]), page |-> pg, d |-> d,
+                     tags |-> <<"c06", "pages-of-one-layout">>] : pg \in {"home", "other"}, d \in DataSets06}
+Good06 == TwoPages06 \cup
+          {[tree |-> Tree06(<<H("<plain>"), P(Var("t"))>>, <<H("only text")>>, u), page |-> "home", d |-> d, tags |-> <<"c06", "no-reserves">>] :
              u \in {Ref("layouts/main"), Alias("main")}, d \in DataSets06}      \* a layout without reserves, a page without inserts
           \cup {[tree |-> Tree06(LayA, pb, u), page |-> "home", d |-> d, tags |-> <<"c06", "A">>] :
              pb \in PagesA, u \in {Ref("layouts/main"), Alias("main")}, d \in DataSets06}
